@@ -229,8 +229,11 @@ func c20Threads() []c20Thread {
 var c20Seq int
 
 // c20Body: threads = indices into c20Threads; withStop adds a concurrent shutdown.
-func c20Body(t *testing.T, combos [][]int, withStop bool, bound int) mc.Body {
+// metrics: the store's metrics run as in a real instance (StartMetrics on the root) and the instance has been up for
+// more than one report period when the load starts, so that the handlers report their timing metrics during it.
+func c20Body(t *testing.T, combos [][]int, withStop bool, bound int, metrics ...bool) mc.Body {
 	threads := c20Threads()
+	withMetrics := len(metrics) > 0 && metrics[0]
 	return func(x *mc.X) mc.Outcome {
 		combo := combos[x.Choose(len(combos), "threads")]
 		var out mc.Outcome
@@ -263,9 +266,20 @@ func c20Body(t *testing.T, combos [][]int, withStop bool, bound int) mc.Body {
 				}
 				return nil
 			}, false)
+			if withMetrics {
+				go func() { _ = inst.Store.StartMetrics(root) }()
+				defer func() {
+					defer func() { _ = recover() }() // (StopMetrics closes a channel; a second call would panic)
+					inst.Store.StopMetrics(nil)
+				}()
+				s.run(61 * time.Second)
+			}
 			var names []string
 			for _, ti := range combo {
 				names = append(names, strings.Fields(threads[ti].name)[0])
+			}
+			if withMetrics {
+				names = append(names, "(metrics running)")
 			}
 			if withStop {
 				names = append(names, "S")
@@ -456,6 +470,9 @@ func TestC20(t *testing.T) {
 			extra = ", M admin.storeMaint, more triples with M and X, and W1 W2 R V together"
 		}
 		r.Explore(mc.Config{Name: fmt.Sprintf("schedules-p%d", bound), Serial: true, SplitDepth: 4, DevBound: bound, SelfCheckEvery: 211, Rule: fmt.Sprintf(rule, extra, bound)}, c20Body(t, triples, false, bound))
+		r.Explore(mc.Config{Name: "schedules-with-metrics-p1", Serial: true, SplitDepth: 4, DevBound: 1,
+			Rule: "the store's metrics running as in a real instance (StartMetrics on the root node, instance up for 61 s so that the handlers report their timing metrics while the load runs): thread sets {W1,W2,R}, {W1,W2,V}, all schedules with at most 1 preemption; same oracles"},
+			c20Body(t, c20Triples(false)[:2], false, 1, true))
 		sb := 1
 		if thorough() {
 			sb = 2
@@ -744,6 +761,7 @@ func init() {
 	}
 	bodies["C20/schedules-p2"] = func(t *testing.T) mc.Body { return c20Body(t, c20Triples(true), false, 2) }
 	bodies["C20/schedules-p3"] = func(t *testing.T) mc.Body { return c20Body(t, c20Triples(false)[:4], false, 3) }
+	bodies["C20/schedules-with-metrics-p1"] = func(t *testing.T) mc.Body { return c20Body(t, c20Triples(false)[:2], false, 1, true) }
 	bodies["C20/shutdown-p1"] = func(t *testing.T) mc.Body { return c20Body(t, [][]int{{0, 1}, {0, 2}}, true, 1) }
 	bodies["C20/shutdown-p2"] = func(t *testing.T) mc.Body { return c20Body(t, [][]int{{0, 1}, {0, 2}}, true, 2) }
 }
